@@ -530,7 +530,7 @@ def image(
     # zorder = kwargs.pop("zorder", None)
 
     for binning in h2._binnings:
-        if not binning.is_regular():
+        if not binning.is_regular() or not binning.is_consecutive():
             raise ValueError(
                 "Histograms with irregular bins cannot be plotted using image method."
             )
